@@ -162,3 +162,45 @@ def loop_var_leak(ctx, rep, rule: str, funcs: list[str]) -> None:
                 nontrivial=True,
             )
         rep.floor(rule, f"{short(q)} loops", n_loops, 1)
+
+
+def per_group_fresh(ctx, rep, rule: str, funcs: list[str]) -> None:
+    """What a per-group / per-block loop stores into optimizer state must be created inside that iteration: a mutable object
+    (tensor, list, preconditioner) created once before the loop and stored by every iteration is shared — an in-place
+    update for one group would change every group's copy (e.g. one step counter advanced once per group per step)."""
+    repo = ctx.repo
+    n = 0
+    for q in funcs:
+        fi = repo.func(q)
+        m = fi.module
+        for loop in [x for x in A.walk_no_nested(fi.node) if isinstance(x, ast.For)]:
+            inside = {id(x) for x in ast.walk(loop)}
+            for st in ast.walk(loop):
+                if not (isinstance(st, ast.Assign) and len(st.targets) == 1 and isinstance(st.targets[0], ast.Subscript)):
+                    continue
+                v = st.value
+                shared = []
+                for nm in [x for x in ast.walk(v) if isinstance(x, ast.Name) and isinstance(x.ctx, ast.Load)]:
+                    # only names that stand for the stored object itself (not callees, not indices of a call)
+                    par = A.parents(st)
+                    p = par.get(id(nm))
+                    if isinstance(p, ast.Call) and p.func is nm:
+                        continue
+                    in_call_args = False
+                    q2 = nm
+                    while id(q2) in par and par[id(q2)] is not st:
+                        q2 = par[id(q2)]
+                        if isinstance(q2, ast.Call):
+                            in_call_args = True
+                    if in_call_args:
+                        continue  # argument of a call evaluated per iteration: the call's result is per iteration
+                    defs = [d for d in A.walk_no_nested(fi.node) if isinstance(d, (ast.Assign, ast.AnnAssign)) and any(isinstance(t, ast.Name) and t.id == nm.id for t in (d.targets if isinstance(d, ast.Assign) else [d.target]))]
+                    outside = [d for d in defs if id(d) not in inside and d.value is not None and not isinstance(d.value, ast.Constant)]
+                    if outside and not any(id(d) in inside for d in defs):
+                        from ..canon import _is_pure
+
+                        if not _is_pure(outside[0].value) or isinstance(outside[0].value, (ast.Tuple,)):
+                            shared.append((nm.id, outside[0]))
+                n += 1
+                rep.ob(rule, f"per-iteration-fresh:{short(q)}:{ast.unparse(st.targets[0])[:50]}", not shared, fi.loc(st), f"`{ast.unparse(st)[:90]}` inside the loop stores an object created in this iteration" + (f"; `{shared[0][0]}` is created once before the loop (line {shared[0][1].lineno}) and stored by every iteration: all groups share one mutable object" if shared else ""), sample=(n % 4 == 0))
+    rep.floor(rule, "subscript stores inside per-group loops", n, 5)
